@@ -844,7 +844,7 @@ func (m *moAnalysis) run() {
 }
 
 // ruleMO reports one obligation per order-nondeterministic region.
-func ruleMO(r *Run, floor int) {
+func ruleMO(r *Run, floor int, scope ...string) {
 	m := newMO(r.P)
 	m.run()
 	// The generated API package (ogen JSON encoders/decoders) is out of scope: the command never
@@ -876,6 +876,19 @@ func ruleMO(r *Run, floor int) {
 		inv.Fail("-", "only %d order-nondeterministic regions found, the confirmed floor is %d", len(m.regions), floor)
 	} else {
 		inv.OK("%d map range loops, %d order-nondeterministic regions in total", nSrc, len(m.regions))
+	}
+	if len(scope) > 0 {
+		// keep the regions of the named functions / packages only (the other regions belong to other properties)
+		var in []*moRegion
+		for _, rg := range m.regions {
+			for _, sc := range scope {
+				if strings.Contains(rg.Key, sc) {
+					in = append(in, rg)
+					break
+				}
+			}
+		}
+		m.regions = in
 	}
 	byRegion := map[*moRegion][]moSink{}
 	for _, s := range m.sinks {
